@@ -1,4 +1,5 @@
 import FxVerif.Model.C18
+import FxVerif.Proofs.C18P
 /-!
 # C18 — a tolerated failed sub-step leaves none of its own partial effects
 
@@ -251,6 +252,123 @@ theorem ibc_recv_failure_outcome :
   rw [hc, runSteps_failure_outcome ibcCoreSteps eff s ⟨"cbs.OnRecvPacket", by decide, hfail⟩]
   rw [runOuterOnly_eq]
   congr 1
+
+/-! ## the same four boundaries over the REGENERATED STRUCTURED PROGRAMS
+
+`Gen.C18.attestationProg`, `executeClaimProg`, `govProg`, `recvPacketProg` are regenerated from the Go AST on every run
+(`go/extract/c18prog.go`) with the spine of every boundary inlined; `Model.C18P.exec` executes them for EVERY behaviour
+of the leaf calls (`Env`: which call returns an error / panics at which loop iteration, the VM error kind of every
+EVM response, every uninterpreted condition, every loop length).  The state is the list of write tokens on the outer
+context; `denote` turns it into a transformer of any state type for any writes of the leaves.
+
+Each theorem says: if a call made through the cache variable failed (`k ∈ failed`: returned an error, panicked, or
+produced a VM error of ANY kind; at ANY loop iteration), the boundary ends normally and the outer context carries
+exactly the designated tokens.  They break when
+ (i)   a write is moved from the cache to the outer context or in front of the cache,
+ (ii)  the commit is guarded by a condition that holds on some failure (another error variable — shadowing —, a test
+       that only recognises a revert, a recover() that assigns a shadowed variable),
+ (iii) the cache is opened per message instead of once per proposal,
+ (iv)  the cache is skipped on some path (per claim type). -/
+
+section Prog
+open FxVerif.Model.C18P FxVerif.Proofs.C18P
+
+/-- **observed event, handler fails** (any claim type — the claim type is not consulted before the cache is opened):
+the vote loop is left (`break`) with exactly the observed mark (`SetLastObservedEventNonce`,
+`SetLastObservedBlockHeight`, `SetAttestation`) and the handler-independent clean-up on the outer context -/
+theorem attestation_failure_outcome_prog (env : Env) (it : Nat) (hp : NoPanic env)
+    (hfail : env.ok "k.AttestationHandler" it = false) :
+    (run env attestationProg it).1 = .brk ∧ (run env attestationProg it).2.outer = attDesignated it :=
+  att_fail env it hp ((att_ghost env it hp).2 hfail)
+
+/-- the ghost flag of the attestation boundary is exactly "the handler returned an error" -/
+theorem attestation_failed_iff (env : Env) (it : Nat) (hp : NoPanic env) :
+    (run env attestationProg it).2.failed ≠ [] ↔ env.ok "k.AttestationHandler" it = false :=
+  att_ghost env it hp
+
+/-- … and when the handler succeeds its writes ARE committed, between the mark and the clean-up -/
+theorem attestation_success_outcome_prog (env : Env) (it : Nat) (hp : NoPanic env)
+    (hok : env.ok "k.AttestationHandler" it = true) :
+    (run env attestationProg it).1 = .brk ∧
+    (run env attestationProg it).2.outer = attPre it ++ [⟨"k.AttestationHandler", it, []⟩] ++ attPost it :=
+  att_ok env it hp hok
+
+/-- a panic of the handler is NOT tolerated: it propagates (the enclosing transaction reverts as a whole) -/
+theorem attestation_panic_propagates (env : Env) (it : Nat)
+    (hp : ∀ n i, n ≠ "k.AttestationHandler" → env.panics n i = false)
+    (h : env.panics "k.AttestationHandler" it = true) : (run env attestationProg it).1 = .panic :=
+  att_panic env it hp h
+
+/-- the same for ANY state type, ANY writes of every leaf and ANY failure position `n` inside the handler's writes -/
+theorem attestation_failure_outcome_denote {S : Type} (eff : Eff S) (cond : String → Nat → Bool) (iters : Nat → Nat)
+    (it n : Nat) (s : S) (hp : ∀ name i, (eff name i).panics = false)
+    (hfail : (eff "k.AttestationHandler" it).failAt = some n) :
+    denote eff (run (eff.env cond iters) attestationProg it).2.outer s = denote eff (attDesignated it) s := by
+  have h := attestation_failure_outcome_prog (eff.env cond iters) it (fun name i => hp name i)
+    (by simp [Eff.env, hfail])
+  rw [h.2]
+
+/-- **inbound bridge call, contract call fails** — a failing conversion of the first / a middle / the last coin, a
+failing `CallEVM`, a VM error of any kind (revert, out of gas, invalid opcode, insufficient balance, …): `ExecuteClaim`
+returns nil and the outer context carries exactly: claim consumed, bridge account, the credits, (coins moved to the
+refund address,) the refund record — provided the two refund calls themselves succeed -/
+theorem bridge_call_in_failure_outcome_prog (env : Env) (hp : NoPanic env)
+    (hs : env.ok "k.bankKeeper.SendCoins" 0 = true) (ha : env.ok "k.AddOutgoingBridgeCall" 0 = true)
+    (hfail : 1 ∈ (run env executeClaimProg).2.failed) :
+    (run env executeClaimProg).1 = .ret true ∧ (run env executeClaimProg).2.outer = bciDesignated env :=
+  bci_fail env hp hs ha hfail
+
+theorem bridge_call_in_failure_outcome_denote {S : Type} (eff : Eff S) (cond : String → Nat → Bool) (iters : Nat → Nat)
+    (s : S) (hp : ∀ name i, (eff name i).panics = false)
+    (hs : (eff "k.bankKeeper.SendCoins" 0).failAt = none) (ha : (eff "k.AddOutgoingBridgeCall" 0).failAt = none)
+    (hfail : 1 ∈ (run (eff.env cond iters) executeClaimProg).2.failed) :
+    denote eff (run (eff.env cond iters) executeClaimProg).2.outer s = denote eff (bciDesignated (eff.env cond iters)) s := by
+  have h := bridge_call_in_failure_outcome_prog (eff.env cond iters) (fun name i => hp name i)
+    (by simp [Eff.env, hs]) (by simp [Eff.env, ha]) hfail
+  rw [h.2]
+
+/-- **passed proposal, a message fails** — at any index, by a returned error or by a panic (recovered by
+`safeExecuteHandler` into the NAMED result): the clause ends with `Status = Failed`, `SetProposal`, and the separately
+tolerated hook; no handler write reaches the outer context -/
+theorem proposal_failure_outcome_prog (env : Env) (hp : ∀ n i, n ≠ "handler" → env.panics n i = false)
+    (hset : env.ok "keeper.SetProposal" 0 = true) (hfail : 1 ∈ (run env govProg).2.failed) :
+    (run env govProg).1 = .ret true ∧ (run env govProg).2.outer = govDesignated env :=
+  gov_fail env hp hset hfail
+
+theorem proposal_failure_outcome_denote {S : Type} (eff : Eff S) (cond : String → Nat → Bool) (iters : Nat → Nat)
+    (s : S) (hp : ∀ name i, name ≠ "handler" → (eff name i).panics = false)
+    (hset : (eff "keeper.SetProposal" 0).failAt = none)
+    (hfail : 1 ∈ (run (eff.env cond iters) govProg).2.failed) :
+    denote eff (run (eff.env cond iters) govProg).2.outer s = denote eff (govDesignated (eff.env cond iters)) s := by
+  have h := proposal_failure_outcome_prog (eff.env cond iters) (fun name i hn => hp name i hn)
+    (by simp [Eff.env, hset]) hfail
+  rw [h.2]
+
+/-- **IBC packet, transfer application or follow-up fails** — error acknowledgement of the transfer application, failing
+`IBCCoinToEvm`, failing `CallEVM`, VM error of any kind: core `RecvPacket` returns nil and the outer context carries
+exactly core's own bookkeeping and `WriteAcknowledgement` called with an UNSUCCESSFUL acknowledgement (synchronous
+acknowledgement; `WriteAcknowledgement` itself succeeds) -/
+theorem ibc_recv_failure_outcome_prog (env : Env) (hp : NoPanic env)
+    (hsync : env.cond "ack != nil" 0 = true) (hsync' : env.cond "ack == nil" 0 = false)
+    (hw : env.ok "k.ChannelKeeper.WriteAcknowledgement" 0 = true)
+    (hfail : 2 ∈ (run env recvPacketProg).2.failed) :
+    (run env recvPacketProg).1 = .ret true ∧ (run env recvPacketProg).2.outer = ibcDesignated :=
+  ibc_fail env hp hsync hsync' hw hfail
+
+theorem ibc_recv_failure_outcome_denote {S : Type} (eff : Eff S) (cond : String → Nat → Bool) (iters : Nat → Nat)
+    (s : S) (hp : ∀ name i, (eff name i).panics = false)
+    (hsync : cond "ack != nil" 0 = true) (hsync' : cond "ack == nil" 0 = false)
+    (hw : (eff "k.ChannelKeeper.WriteAcknowledgement" 0).failAt = none)
+    (hfail : 2 ∈ (run (eff.env cond iters) recvPacketProg).2.failed) :
+    denote eff (run (eff.env cond iters) recvPacketProg).2.outer s = denote eff ibcDesignated s := by
+  have h := ibc_recv_failure_outcome_prog (eff.env cond iters) (fun name i => hp name i)
+    (by simpa [Eff.env] using hsync) (by simpa [Eff.env] using hsync') (by simp [Eff.env, hw]) hfail
+  rw [h.2]
+
+/-- the transfer stack of the app is built with the fx middleware (the binding `cbs.OnRecvPacket ↦ IBCMiddleware.OnRecvPacket`) -/
+theorem transfer_stack_uses_middleware : transferStackUsesMiddleware = true := by decide
+
+end Prog
 
 /-! ## non-vacuity -/
 
